@@ -44,7 +44,9 @@ PLAIN_CMDS = ['alpha', 'frac', 'sum', 'mathbb']
 ZERO = ['cup', 'cap', 'in', 'notin', 'infty']
 SAFE_AFTER_NAME = ['+', '=1', '-y', '^2', '_i', '.', ',z', ' +', ' \n=']
 TEXT = ['x', 'y+1', ' = ', '<', '>', '0', 'ab', '\\$', '\\$5', '\\,', '\\\\', '&',
-        '^', '_', ' \n ', '~', '|', 'é']
+        '^', '_', ' \n ', '~', '|', 'é',
+        # digit-first and multi-line runs, escaped dollars glued to ^ _ and digits
+        '2x', '10', '5\n+1', '\n', 'x\ny', '^\\$', '_\\$', '3\\$', '\r\n', '1.5,']
 BRACKETS = ['(', ')', '[', ']', '(0,1]', '[0,1)', ']a,b[', '((', ']]', ')(']
 
 
